@@ -1,4 +1,5 @@
 """C03 — Well-formed package databases are reported completely and exactly."""
+import re
 import binascii
 from . import lib
 
@@ -90,6 +91,30 @@ def finding_class(case, fi, fm):
             for j, r in enumerate(reps):
                 if i != j and r[2] == w[0] and not (r[1] == '' and r[0] == w[0]):
                     return 'C03/gomod-wildcard-replace-follows-replaced-name'
+    t = case.split(' ')
+    if t[0] == 'gemfile' and len(t) > 1 and len(t[1]) < 2 * 65536:
+        try:
+            data = bytes.fromhex(t[1])
+        except ValueError:
+            data = b''
+        seen = {}
+        for l in data.split(b'\n'):
+            m = re.match(rb'^    ([^ ]+) \(([^)]*)\)\r?$', l)
+            if m:
+                k = (m.group(1), m.group(2).split(b'-')[0])
+                seen.setdefault(k, set()).add(m.group(2))
+        if any(len(v) > 1 for v in seen.values()):
+            # class predicate: two spec lines with the same gem name whose versions differ only behind the first "-" (the platform)
+            return 'C03/gemfile-platform-variants-reported-twice'
+    if t[0] in ('apk', 'gradle', 'gemfile', 'requirements', 'dpkg') and len(t) > 1 and len(t[1]) >= 2 * 65536:
+        try:
+            data = bytes.fromhex(t[1])
+        except ValueError:
+            data = b''
+        if any(len(l) >= 65536 for l in data.split(b'\n')):
+            # class predicate: the file holds a line of 65 536 bytes or more (bufio.Scanner's default token limit). Two behaviours:
+            # the whole file fails (an error the caller sees, every package lost), or the parse ends silently at that line (no error, fewer packages)
+            return 'C03/line-over-64KiB-fails-the-file' if fi.get('pk') == 'err' else 'C03/line-over-64KiB-silently-ends-the-parse'
     return None
 
 
@@ -107,11 +132,14 @@ def run(ctx):
                        'the generator computes its expected closure with package `path`, the Lean Spec checks the generator\'s list of reachable files as a certificate (`isReachCert`, theorem reachCert_iff) instead of trusting it',
                        'go.mod: the go.sum branch (go / toolchain older than 1.17) is modelled at the level of the fields of the go.sum lines (GoMod.extractWithSum); WHETHER a version is older than 1.17 is go/version.Compare, evaluated by the harness and passed to the model',
                        'dpkg: usr/lib/opkg/status is read like var/lib/dpkg/status (same cases, another path); var/lib/dpkg/status.d/<name> has its own model (Dpkg.parseD: stanzas without Status count, a reader error yields no packages) tied by the stream only, format dpkgd',
-                       'a Gemfile.lock line of 64 KiB or more silently ends the file (scanner.Err() is never checked after the loop): outside WF, reported as an observation']
+                       'a Gemfile.lock line of 64 KiB or more silently ends the file (scanner.Err() is never checked after the loop): outside the WF of theorem C03_gemfile; judged by the long-line layouts (known findings C03/line-over-64KiB-*)',
+                       'go.mod: the MODEL (GoMod.step / extract) mirrors the extractor, which matches a wildcard replace against the CURRENT name of an entry; the SPECIFICATION the oracle uses is the go command\'s rule (GoMod.goFinal / expectedGo, no theorem ties the two: on every generated document outside the class of known finding C03/gomod-wildcard-replace-follows-replaced-name model = implementation = specification is observed by the stream); files with conflicting directives (same left side, different right sides: an error of the go command, GoMod.consistent) are not judged']
     ctx.rule = ('case = one generated file of one of the twelve formats: abstract package set (0..40 records, ecosystem-legal alphabets) x layout (record order, LF/CRLF/mixed, final newline, '
                 'blank lines, comments, unrelated fields, white space, key order / indentation for JSON and TOML), serialised by the harness\'s own encoders and read by the real Extract; '
                 'format reqtree: a file system of 1..9 requirements files that include each other (chains of depth 1..4 through sub-directories and ../, several routes, cycles, self-includes, missing targets, '
                 'same-named decoy files next to the top-level file, -r / --requirement / -c spellings), scanned through the top-level file; '
+                'go.mod replace directives: version-specific, wildcard, to a version the file does not require, BOTH kinds for the same module in both orders, a directive whose right side is the left side of another (chains, through a wildcard and through a version-specific first directive), a version-specific pin to the same path followed by a wildcard; the expected list follows the go command\'s rule (Spec GoMod.goFinal: exact (path, version) directive, else wildcard directive, else as required; looked up once, never chained), computed by the Lean Spec independently of the extractor\'s loop; '
+                'every sixth case of apk / gradle / Gemfile.lock / requirements.txt carries one more line a reader must pass over (comment, apk D: field, a platform entry) of 65 534, 65 535, 65 536 or 70 000 bytes — around bufio.Scanner\'s token limit — or (Gemfile.lock) a platform twin of a gem (`name (1.2.3-x86_64-linux)`); these are judged against the generator\'s list (src=gen: the Lean WF assumes short lines); '
                 'plus for the five line formats a malformed stream (line soups, truncations, swapped delimiters, odd bytes, lines around 64 KiB) with expected = ?; thorough adds every layout '
                 'of every ordered subset of a 3-record set. non-trivial = a well-formed case listing >= 2 packages; distinct = distinct case lines')
     ok, _ = ctx.lean_build(['Scalibr.Properties.C03', 'drv_c03'])
@@ -162,7 +190,7 @@ def run(ctx):
     lib.standard_stream(ctx, gen='c03gen', driver='drv_c03', gen_args=['-seed', str(ctx.seed), '-n', str(n), '-tier', ctx.tier],
                         compare_keys=['pk'], nontrivial=nontrivial, oracle=oracle, classify=classify, finding_class=finding_class)
     ctx.notes.append('observations outside the well-formed generator (model and implementation agree; not counted as violations): '
-                     'a Gemfile.lock line of >= 64 KiB silently ends the file without an error; requirements.txt `foo>1.0` and `foo @ url` lines are dropped; '
+                     'requirements.txt `foo>1.0` and `foo @ url` lines are dropped; '
                      'packages.lock.json `"type": "Project"` references are skipped (fix 9dc2b6de)')
     if skew:
         ctx.mismatches.extend(c for c, _ in skew)
